@@ -1,1 +1,2 @@
-"""C03"""
+"""C03 -- proof part from the contracts tagged C03; bounded API-level comparison on left-recursive schemas."""
+from bounded.bC03 import run as bounded  # noqa: F401
